@@ -426,7 +426,10 @@ class Fn:
         """local -> list of (block, stmt_index or None for call dest, rvalue-or-term)"""
         if self._defs is None:
             d = defaultdict(list)
+            live = self.live_blocks()
             for bi, blk in enumerate(self.blocks):
+                if bi not in live and not blk.get("cleanup"):
+                    continue          # cut off by a decision made while splicing a helper in (a switch on a literal argument): not a definition that can reach anything
                 for si, st in enumerate(blk["st"]):
                     if st["s"] == "assign":
                         d[st["lhs"]["l"]].append((bi, si, st))
